@@ -51,7 +51,10 @@ def build(seed, tier):
     h = histories.gen_history(st, n_ops=rc.randint(1, 12), fault_rate=0.3, fault_classes=FAULT_CLASSES,
                               threaded_rate=0.1, size=rc.randint(0, 4), exotic_args=False, before_after=True, extra_file=rc.random() < 0.3)
     tracer = rc.choice(['none', 'none', 'native', 'calls'])
-    return {'files': h['files'], 'ops': h['ops'], 'config': {'tracer': tracer, 'ref': True, 'allow_print': rc.random() < 0.15},
+    cfg = {'tracer': tracer, 'ref': True, 'allow_print': rc.random() < 0.15}
+    if rc.random() < 0.1:
+        cfg['sandbox_threaded'] = True       # sandbox-wide threaded mode: nested student imports get threads of their own
+    return {'files': h['files'], 'ops': h['ops'], 'config': cfg,
             'meta': {'tracer': tracer, 'seed': seed}}
 
 
